@@ -169,6 +169,98 @@ example : (serverRun ⟨t!"s", t!"1", Mcp.Gen.supportedVersions, Mcp.Gen.default
       (fun a => (a.protocol, a.caps)) =
     [(t!"2025-03-26", ⟨true, false, false⟩), (t!"2024-11-05", ⟨true, true, false⟩)] := by decide
 
+/-! ## server: several initializes on one session -/
+
+private theorem serverRun_append (c : SrvCfg) (r : Registry) (pre post : List SOp) :
+    serverRun c r (pre ++ post) = serverRun c r pre ++ serverRun c (registryAfter r pre) post := by
+  induction pre generalizing r with
+  | nil => simp [serverRun, registryAfter]
+  | cons op pre ih => cases op <;> simp [serverRun, registryAfter, ih]
+
+private theorem registryAfter_eq_foldl (r : Registry) (ops : List SOp) :
+    registryAfter r ops = (ops.filterMap regOf).foldl Registry.apply r := by
+  induction ops generalizing r with
+  | nil => rfl
+  | cons op ops ih => cases op <;> simp [registryAfter, regOf, ih, List.filterMap_cons]
+
+/-- An initialize that follows any history `pre` — earlier initializes with whatever versions included, on the same
+    session or not: the model of the server has no per-session version — leaves the earlier answers alone and is answered
+    from its own requested version and the registry of that moment only. -/
+theorem C16_reinitialize (c : SrvCfg) (pre : List SOp) (v : Text) :
+    serverRun c {} (pre ++ [.init v]) = serverRun c {} pre ++ [answerInit c (registryAfter {} pre) v] ∧
+    (answerInit c (registryAfter {} pre) v).protocol = select c.supported c.dflt v := by
+  refine ⟨?_, rfl⟩
+  rw [serverRun_append]; rfl
+
+/-- The answer does not depend on earlier initializes: two histories with the same registrations in the same order, and
+    any initializes whatsoever in between, end with the same answer to a final `initialize v`. -/
+theorem C16_answer_independent_of_earlier_initializes (c : SrvCfg) (pre pre' : List SOp) (v : Text)
+    (h : pre.filterMap regOf = pre'.filterMap regOf) :
+    (serverRun c {} (pre ++ [.init v])).getLast? = (serverRun c {} (pre' ++ [.init v])).getLast? ∧
+    (serverRun c {} (pre ++ [.init v])).getLast? = some (answerInit c (registryAfter {} pre) v) := by
+  rw [(C16_reinitialize c pre v).1, (C16_reinitialize c pre' v).1]
+  simp [registryAfter_eq_foldl, h]
+
+/-- On today's lists: whatever was negotiated before, a supported request is answered with itself and any other with
+    the latest version. -/
+theorem C16_reinitialize_version (name ver : Text) (pre : List SOp) (v : Text) :
+    ∃ a, (serverRun ⟨name, ver, Mcp.Gen.supportedVersions, Mcp.Gen.defaultProtocolVersion⟩ {} (pre ++ [.init v])).getLast? = some a ∧
+      (v ∈ Mcp.Gen.supportedVersions → a.protocol = v) ∧
+      (v ∉ Mcp.Gen.supportedVersions → a.protocol = Mcp.Gen.defaultProtocolVersion) := by
+  refine ⟨_, (C16_answer_independent_of_earlier_initializes _ pre pre v rfl).2, ?_, ?_⟩
+  · exact (C16_negotiation v).2.1
+  · exact fun h => ((C16_negotiation v).2.2 h).1
+
+/-- The structure the absence of session state in the model rests on (regenerated): `handleInitialize` passes
+    `selectSupportedVersion(requested)` unchanged to `buildInitializeResponse`, which stores it unchanged. -/
+theorem C16_version_flow_fact : Mcp.Gen.initializeVersionDirect = true := by decide
+
+/-- non-vacuity: newer then older, unsupported (falls back to the latest) then older, older then newer, and strings
+    sorting below / above the supported ones in between — every answer follows its own request. -/
+example : (serverRun ⟨t!"s", t!"1", Mcp.Gen.supportedVersions, Mcp.Gen.defaultProtocolVersion⟩ {}
+      [.init t!"2025-03-26", .init t!"2024-11-05", .init t!"9999-12-31", .init t!"2024-11-05", .init t!"1999-01-01",
+       .init t!"2025-03-26", .init [], .init t!"2024-11-05"]).map (fun a => a.protocol) =
+    [t!"2025-03-26", t!"2024-11-05", t!"2025-03-26", t!"2024-11-05", t!"2025-03-26", t!"2025-03-26", t!"2025-03-26",
+     t!"2024-11-05"] := by decide
+
+/-! ## server: concurrent initializes -/
+
+/-- With the good shape (one store of the finished map, in the only critical section; locked reader; nobody else) a
+    handshake reads the finished map whatever the other handshakes of that server stored in between. -/
+theorem C16_concurrent_caps (s : UpdShape) (hs : s.ok = true) (r : Registry) (others : List Caps)
+    (h : ∀ x ∈ others, x ∈ storesOf s r) : readAfter (capabilities r) others = capabilities r := by
+  unfold readAfter
+  cases hl : others.getLast? with
+  | none => rfl
+  | some x =>
+    have hx : x ∈ storesOf s r := h x (List.mem_of_getLast? hl)
+    simpa [storesOf, hs] using hx
+
+/-- Today's `updateCapabilities` / `buildInitializeResponse` have that shape (regenerated). -/
+theorem C16_update_shape_fact : Mcp.Gen.updateCapabilitiesShape.ok = true := by decide
+
+/-- … so every answer, also one computed while other clients shake hands, advertises tools, and prompts / resources
+    exactly when the table is non-empty. -/
+theorem C16_concurrent_caps_real (r : Registry) (others : List Caps)
+    (h : ∀ x ∈ others, x ∈ storesOf Mcp.Gen.updateCapabilitiesShape r) :
+    let a := readAfter (capabilities r) others
+    a.tools = true ∧ (a.prompts = true ↔ r.prompts ≠ []) ∧ (a.resources = true ↔ r.resources ≠ []) := by
+  simp only [C16_concurrent_caps _ C16_update_shape_fact r others h]
+  exact C16_caps r
+
+/-- The shape the fact rejects — "reset to the base map, unlock, ask the registries, lock, store the full map": another
+    handshake's first store can be the last one before the read, and the answer lacks a registered kind. -/
+theorem C16_split_update_witness :
+    let s : UpdShape := ⟨2, 0, 0, 2, false, true, 0⟩
+    let r : Registry := { prompts := [t!"p"], resources := [t!"u"] }
+    s.ok = false ∧ ∃ others, (∀ x ∈ others, x ∈ storesOf s r) ∧
+      (readAfter (capabilities r) others).prompts = false ∧ (readAfter (capabilities r) others).resources = false := by
+  refine ⟨by decide, [baseCaps], ?_, by decide, by decide⟩
+  intro x hx
+  simp only [List.mem_singleton] at hx
+  subst hx
+  decide
+
 /-! ## client: single steps -/
 
 /-- Before a successful handshake a guarded request operation fails with not-initialized, puts nothing on the wire and
